@@ -79,6 +79,17 @@ def work(args):
                 for r in ep.responses:
                     for content, ct in canned_for(ab, inst, r, rng):
                         trials.append((int(r.status_code), content, ct))
+                # statuses the DOCUMENT declares but the parse dropped must be exercised too (the document, not the parse, is the reference)
+                found = doc_operation(doc, ep)
+                if found:
+                    for code in (found[2].get("responses") or {}):
+                        try:
+                            st = int(code)
+                        except ValueError:
+                            continue
+                        if st not in [int(r.status_code) for r in ep.responses]:
+                            trials.append((st, b"", None))
+                            trials.append((st, b'{"x": 1}', "application/json"))
                 for st in UNDOC:
                     if st not in [int(r.status_code) for r in ep.responses]:
                         trials.append((st, b'{"x": 1}', "application/json"))
